@@ -117,7 +117,7 @@ Qed.
 Lemma keep_stop s u self t s' o p : stop_if_parent_gone s u self t = (s', o, p) -> keep s s'.
 Proof.
   unfold stop_if_parent_gone. destruct (get s u) as [pa|]; [|intros H; inversion H; subst; apply keep_refl].
-  destruct (st_ge_terminating (a_st pa)); [|intros H; inversion H; subst; apply keep_refl].
+  destruct (not_alive (a_st pa)); [|intros H; inversion H; subst; apply keep_refl].
   destruct (terminate s self t (a_graceful pa)) as [s1 o1] eqn:E. intros H; inversion H; subst. eapply keep_terminate; exact E.
 Qed.
 
